@@ -75,11 +75,15 @@ func detProgram(r *Rng) detProg {
 			"{% with w=maybe() %}{{ w }}{% endwith %}",
 			"{% spaceless %}<a> {{ s }} <b>{% endspaceless %}{% filter upper %}{{ s }}{% endfilter %}",
 			"{% widthratio n 3 100 as w %}{{ w }}{% set q = s %}{{ q }}{% autoescape off %}{{ s }}{% endautoescape %}{{ s }}",
+			"{{ f_ctx3(s, \"b\", s) }}|{{ f_ctx5(s, 1, 2, n, 4) }}|{{ f_ctxv(1, n, 3) }}|{{ f_ctx3(\"x\", \"y\", \"z\") }}",
+			"[{{ leak }}]{% set leak = \"L\" %}{% with other=1 %}{% ssi \"/ssipart.tpl\" parsed %}{% endwith %}",
+			"{{ -1 + 2 }}{{ -2.5 * 2 }}{% for i in lst %}{{ -3 + n }}{% endfor %}",
 		}
 		k := 1 + r.Intn(3)
 		for i := 0; i < k; i++ {
 			main += extra[r.Intn(len(extra))]
 		}
+		files["/ssipart.tpl"] = "<{{ leak }}{{ other }}>"
 		if r.Chance(40) {
 			// an included template that may fail after it has written something
 			files["/part.tpl"] = "part:" + extra[r.Intn(len(extra))]
@@ -176,11 +180,24 @@ func c04Run(c *C) {
 		n = 5
 	}
 	hist := make([]int, n)
+	type keptResult struct {
+		raw  []byte
+		want string
+		step int
+	}
+	var kept []keptResult
 	var trace []D
 	okSeen, errSeen := false, false
 	for i := range hist {
 		hist[i] = r.Intn(len(pool))
 		which := r.Intn(4)
+		if which == 1 {
+			// the bytes returned by ExecuteBytes belong to the caller: they are kept and inspected again at the end of the history
+			if b, e := used.ExecuteBytes(pool[hist[i]]); e == nil {
+				kept = append(kept, keptResult{raw: b, want: string(b), step: i})
+			}
+			c.Eval(1)
+		}
 		got, rawErr := detExecErr(used, pool[hist[i]], which)
 		if rawErr != nil {
 			if why := detErrorInSources(rawErr, p, nil); why != "" {
@@ -205,6 +222,12 @@ func c04Run(c *C) {
 			okSeen = true
 		} else {
 			errSeen = true
+		}
+	}
+	for _, k := range kept {
+		if string(k.raw) != k.want {
+			c.Fail("returned-bytes-changed-later", D{"main": q(p.main), "files": p.files, "step": k.step, "bytes_when_returned": q(truncStr(k.want, 300)), "bytes_at_end_of_history": q(truncStr(string(k.raw), 300)), "history": trace})
+			return
 		}
 	}
 	c.Cover(fmt.Sprintf("history_len_%d", n))
